@@ -15,6 +15,8 @@ PRIM_KIND = {str: 0, int: 1, float: 2, bool: 3}
 
 
 def make_user_class(name, style):
+    """User classes whose Python-level protocol differs from the generic textX classes:
+    truthiness (__len__/__bool__), equality and hashing must not influence navigation."""
     def __init__(self, **kwargs):
         for k, v in kwargs.items():
             setattr(self, k, v)
@@ -30,6 +32,28 @@ def make_user_class(name, style):
         # a user class whose __eq__ makes all instances equal (get_children must use identity)
         d["__eq__"] = lambda self, other: isinstance(other, type(self))
         d["__hash__"] = lambda self: 7
+    if style == "eq_none":
+        # never equal to anything, not even to itself
+        d["__eq__"] = lambda self, other: False
+        d["__hash__"] = lambda self: 11
+    if style == "unhashable":
+        # defines __eq__ without __hash__: instances cannot be put into sets or used as dict keys
+        d["__eq__"] = lambda self, other: self is other
+        d["__hash__"] = None
+    if style == "len0":
+        # container-like class whose instances are always empty, hence falsy
+        d["__len__"] = lambda self: 0
+    if style == "bool_off":
+        # flag-like class whose instances are falsy
+        d["__bool__"] = lambda self: False
+    if style == "len_kids":
+        # container-like class: as long as its first list-valued attribute (falsy when that is empty)
+        def __len__(self):
+            for v in self.__dict__.values():
+                if isinstance(v, list):
+                    return len(v)
+            return 0
+        d["__len__"] = __len__
     return type(name, (object,), d)
 
 
